@@ -26,6 +26,16 @@ def run (cmd rest : String) : Option String :=
       let mask ← if mk == "-" then some none else (intList? mk).map some
       pure (showTopo (pruneTwigs t (coordLen t) sz mask rd))
     | _ => none
+  | "exact" => do
+    -- "num/den" | table  →  id:parent:num/den ... sorted by id
+    let (a, tb) ← split2 rest
+    let t ← parseTable tb
+    let size ← match a.splitOn "/" with
+      | [n, d] => do pure ((← n.toInt? : Int) / ((← d.toNat?) : Rat) : Rat)
+      | [n] => do pure ((← n.toInt? : Int) : Rat)
+      | _ => none
+    let rows := (exactPrune t (coordLen t) size).toArray.qsort (fun a b => a.1 < b.1) |>.toList
+    pure (" ".intercalate (rows.map fun r => s!"{r.1}:{r.2.1}:{r.2.2.num}/{r.2.2.den}"))
   | "strahler" => do
     -- "greedy ign|- mintwig" | table
     let (a, tb) ← split2 rest
